@@ -35,7 +35,8 @@ CLAIMS = {
     },
     "C05": {
         "text": "Revocation histories (prune, delete+update, refresh) in lock-step with the model: removed secrets must be gone "
-                "from the serialized key and unusable; master chains of pruned rights have length 1.",
+                "from the serialized key and unusable; master chains of pruned rights have length 1; a scenario on names that "
+                "differ only by surrounding white space (deletion acts on the named attribute).",
         "design_ref": "§4 C05", "note": _MODEL,
         "technique": "history-based reference-model monitor + wire-level chain invariants",
     },
@@ -48,7 +49,8 @@ CLAIMS = {
     },
     "C09": {
         "text": "Every call of every history (valid and deliberately invalid arguments, all sync states) is judged Ok/Err "
-                "against the documented list; panics count as failures.",
+                "against the documented list; panics count as failures. Invalid arguments include disjunctions with one invalid "
+                "clause and policy objects no string yields (invalid OR Broadcast).",
         "design_ref": "§4 C09", "note": _MODEL,
         "technique": "history-based contract monitor (expected Ok/Err from the reference model)",
     },
@@ -85,18 +87,21 @@ CLAIMS.update({
     },
     "C08": {
         "text": "Enumerated catalogue of named tamper operators on issued keys; refresh must refuse every non-issued arrangement "
-                "and leave key and master key byte-identical. The unframed-MAC re-framings are a recorded open finding.",
+                "and leave key and master key byte-identical (half of the fixtures carry structure edits not yet applied by "
+                "update_msk). The unframed-MAC re-framings are a recorded open finding.",
         "design_ref": "§4 C08, §6", "note": _FE,
         "technique": "fault enumeration (tamper-operator catalogue) with refresh as oracle; known-findings file keyed on operator/flavour",
     },
     "C12": {
-        "text": "Grid of plaintext/metadata lengths x AAD pairs x key classes x flavours, with truncation and bit-flip sweeps; "
+        "text": "Grid of plaintext/metadata lengths (0 .. 2 MiB, LEB128 and 64 KiB / 1 MiB boundaries) x AAD pairs x key classes x "
+                "flavours, with truncation and bit-flip sweeps and structural alterations of the serialized header; "
                 "outputs compared byte-for-byte with the inputs.",
         "design_ref": "§4 C12", "note": "Trusted base: none beyond the harness; inputs are their own oracle.",
         "technique": "round-trip and authentication monitor over an input grid with truncation/bit-flip sweeps",
     },
     "C15": {
-        "text": "Bounded-exhaustive totality (all strings over an 11-symbol alphabet up to length 6/7) and truth-table "
+        "text": "Bounded-exhaustive totality (all strings over an 11-symbol alphabet up to length 6/7), a sweep of every low byte on "
+                "nine code-point pages inside names, random strings over look-alike characters, and truth-table "
                 "equivalence of parsed policies and DNFs against the generating formulas.",
         "design_ref": "§4 C15", "note": "Trusted base: the harness's own formula evaluator and printer.",
         "technique": "bounded-exhaustive input enumeration + truth-table oracle on the public AccessPolicy enum",
